@@ -961,6 +961,28 @@ theorem fix_copy_mark_label_level (m m' : Cqm) (hwf : CqmWF m) (hl : CqmLabelsOK
   rw [a3 k hk, hoh, hfl]
   rfl
 
+/-- **`add_discrete(labels, check_overlaps=True)` accepts only labels outside every discrete constraint — at label level.**  From
+    any reachable state, when the call returns, every given label the model already knows fails the label-level overlap test
+    `LCqm.inDiscreteWith` (on the list of polynomials and the `is_linear()` flags): the index-level condition of
+    `cqm_step_refines_discrete` restated without indices. -/
+theorem add_discrete_overlap_label_level (pre : List Cqm.Op) (hpre : ∀ op ∈ pre, OpOK op) (vs : List Label) (label : Label) :
+    let m := ({} : Cqm).run pre
+    (m.step (.addDiscreteVars vs label true)).2 = none →
+      ∀ v ∈ vs, (absCqm m).info v ≠ none → (absCqm m).inDiscreteWith (linFlags m) v = false := by
+  intro m hok v hv hknown
+  have hinv : RefInv m := ⟨history_inv pre hpre, history_labels pre, history_keysym pre hpre, history_sorted pre hpre⟩
+  have hstep : m.step (.addDiscreteVars vs label true) = ((m.step (.addDiscreteVars vs label true)).1, none) := Prod.ext rfl hok
+  obtain ⟨h1, _⟩ := (cqm_step_refines_discrete m _ hinv.wf hinv.lab).2.2 vs label true hstep
+  cases hg : m.idx? v with
+  | none =>
+    exfalso; apply hknown
+    show (Cqm.findIdx v m.labels 0).map _ = none
+    have : Cqm.findIdx v m.labels 0 = none := hg
+    rw [this]; rfl
+  | some g =>
+    rw [← (overlap_test_is_label_level pre hpre v).1 g hg]
+    exact (h1 v hv g hg).2 rfl
+
 /-- not vacuous, both outcomes of the BINARY branch on `demo` + a discrete constraint `d` over x, y: the first flip of `x`
     makes `d` no longer one-hot, so `is_discrete()` is False when the marks are examined and the mark STAYS; the second flip
     restores the one-hot form and the mark is cleared — the function gives the marks the model has, and `is_linear()` is what
